@@ -385,8 +385,12 @@ def run_case(case, workdir):
                 p1, p2 = PlotfileCooker(pa), PlotfileCooker(pb)
                 outs = []
                 for k2 in range(3):
+                    # (the SAME output name for the three requests, moved aside after each: a request is answered for its own
+                    # arguments, whatever the same readers were asked before for the same output)
                     o = os.path.join(workdir, "out_h%d" % k2)
-                    fn(p1, p2, pltout=o, vars2=[["Z"], ["Zvar"], None][k2])
+                    same_ = os.path.join(workdir, "out_same")
+                    fn(p1, p2, pltout=same_, vars2=[["Z"], ["Zvar"], None][k2])
+                    os.rename(same_, o)
                     outs.append(o)
                 # ... and then the two readers change roles (the reader that was the second input three times is the first now)
                 o = os.path.join(workdir, "out_h3")
